@@ -15,6 +15,7 @@ import difflib
 import logging
 import os
 import typing
+import uuid
 
 import pydantic.typing
 import re
@@ -632,8 +633,11 @@ class FlowIRExperimentConfiguration:
 
         if create_instance_files and (exists_manifest is False or update_instance_files is True):
             try:
-                with open(manifest_file, 'w') as f:
+                # VV: write to a temporary file first so that a failed update cannot corrupt the manifest
+                temp_file = os.path.join(self._conf_dir, str(uuid.uuid4()))
+                with open(temp_file, 'w') as f:
                     experiment.model.frontends.flowir.yaml_dump(self.manifestData, f)
+                os.rename(temp_file, manifest_file)
             except Exception as e:
                 out_errors.append(e)
 
@@ -678,7 +682,9 @@ class FlowIRExperimentConfiguration:
         This is version of FlowIR without any component replication
         """
         instance_file = os.path.join(self._conf_dir, 'flowir_instance.yaml')
-        with open(instance_file, 'w') as f:
+        # VV: write to a temporary file first so that a failed update cannot corrupt the instance description
+        temp_file = os.path.join(self._conf_dir, str(uuid.uuid4()))
+        with open(temp_file, 'w') as f:
             primitive = self._unreplicated.instance(ignore_errors=True, inject_missing_fields=False,
                                                     fill_in_all=False, is_primitive=True)
             # primitive = experiment.model.frontends.flowir.FlowIR.compress_flowir(primitive)
@@ -686,6 +692,7 @@ class FlowIRExperimentConfiguration:
             experiment.model.frontends.flowir.yaml_dump(
                 pretty_primitive, f, sort_keys=False, default_flow_style=False
             )
+        os.rename(temp_file, instance_file)
 
     @property
     def configurationDirectory(self):
